@@ -8,82 +8,82 @@ HERE = os.path.dirname(os.path.dirname(os.path.abspath(__file__)))
 
 CHECKS = {
     "C01": dict(
-        engine="G1 guard + H2/H1 sign-invariance + D1 dispatch + I1/I1c inverse pairing + C2 memo coherence + N1 + U1/U1m/U1a/A1",
+        engine="C2 + D1 + G1 + H1 + H2 + I1 + I1c + N1 + PT1 + SH2 + U1",
         technique="AST dataflow: domain-guard, exhaustive-dispatch and inverse-pairing rules over Point.coords/distance; call-graph unbound-name scan",
         text="Decides structural necessary conditions only: every arccosh on the distance result path is clamped into its domain (so d(x,x) cannot be NaN), every Model value has a forwarding arm in the coords dispatch, setters and getters use name-inverse chart maps around the same delegate, and no unbound name is reachable. Not the numerical round-trip or metric laws.",
         ref="DESIGN.md §4 C01"),
     "C03": dict(
-        engine="S1 slot consistency + P1 purity + W1 wrap parity + RO roles + C2 memo coherence + U1/U1m/U1a/A1",
+        engine="C2 + P1 + RO + S1 + SH3 + U1 + W1",
         technique="AST def-use slot tracking in Transformation.apply, effect analysis, MRO-resolved sibling agreement of wrap/unwrap functions",
         text="Decides that apply() transforms each of the three data slots with its own ndims and delivers it to its own keyword on a copy (never on the argument), that every representation class wraps and unwraps with one row/column convention, and the argument roles at matrix_product. Not the group-action laws as numerical identities.",
         ref="DESIGN.md §4 C03"),
     "C04": dict(
-        engine="SH1 + SH2 shape interpreter + AX1 axis discipline + S1 + RO + U1",
+        engine="AX1 + RO + S1 + SH1 + SH2 + SH3 + U1",
         technique="abstract interpretation of utils.core broadcasting kernel over symbolic shapes (rank-exhaustive grid)",
         text="Decides the axis bookkeeping clause for all rank configurations in the grid with symbolic (unbounded) dimension sizes: result shape and axis provenance of matrix_product / broadcast_match in the three broadcast modes, plus slot-consistent reshape/flatten. Not the values at each index.",
         ref="DESIGN.md §4 C04"),
     "C05": dict(
-        engine="U1 + HAD + INV + FOLD + CONJ + DU + W1 + C2 memo coherence + ZS1 + N1",
+        engine="C2 + CONJ + DU + ELT1 + FOLD + GO1 + HAD + INV + N1 + U1 + W1 + ZS1",
         technique="call-graph unbound-name scan, kind-typing of matrix products in derived-representation constructors, flag-agreement check",
         text="Decides that every derived-representation constructor can execute (no unbound names), composes matrix-kinded values with @ and never elementwise *, stores the inverse letter as the inverse matrix, and evaluates words as a left-to-right fold. Not the homomorphism law over all words.",
         ref="DESIGN.md §4 C05"),
     "C06": dict(
-        engine="M1 must-pass-through + M2 option forwarding + M3 channel agreement + M4 loop-carried channel + N1 + C2 + U1",
+        engine="C2 + FW1 + M1 + M2 + M3 + M4 + N1 + U1",
         technique="path enumeration over a hand-built statement CFG of _automaton_accepted with flag specialisation",
         text="Decides, on every path of the memoised recursion, that the zero-length contribution is merged whenever maxlen may be true, that the recursion forwards every option, and that the word and matrix channels are combined on the same side in the same order. Not language equality.",
         ref="DESIGN.md §4 C06"),
     "C08": dict(
-        engine="T1 dtype-probe validity (like-flow) + DU + C2 + P1q query purity + N1 + U1",
+        engine="C2 + CM1 + DU + INF1 + N1 + P1q + PA1 + T1 + T1e + U1",
         technique="interprocedural value-kind flow from Coxeter constructors to np.can_cast probes; AST pattern on canonical_representation",
         text="Decides that the scalar parameters the Coxeter constructors create (Python floats) reach dtype probes that accept them, that the canonical representation is composed with an inverse-transpose, and hyperbolic_rep diagonalises. Not the Coxeter relations numerically.",
         ref="DESIGN.md §4 C08"),
     "C09": dict(
-        engine="V1/V1p no shared cells + V2 write completeness + B1 container belief + RF1 + C2 + N1 + U1",
+        engine="B1 + C2 + DV1 + FK1 + N1 + RF1 + U1 + V1 + V1p + V2 + V2r",
         technique="AST taint/alias analysis of the three redundant views of FSA; belief-contradiction rule; sibling write agreement",
         text="Decides that no list cell is shared between the outgoing and incoming views, that every edit/rebuild writes all three views with agreeing indices, and that nothing stored in the label view breaks the KeyError belief of the walk. Not equality with a set model over all histories.",
         ref="DESIGN.md §4 C09"),
     "C10": dict(
-        engine="B1 + B2 vivifying read + P1 purity (flag-specialised) + RF1 fixpoint shape + EV + C2 + N1 + U1",
+        engine="B1 + B2 + BFS1 + C2 + EV + FK1 + N1 + P1 + RF1 + U1 + V1p + V2r",
         technique="effect analysis with flag specialisation (inplace=False), belief contradiction, vivifying-read detection on defaultdict cells",
         text="Decides that acceptance and the walk share one belief about missing labels that every store respects, that read-only queries and non-in-place operations never mutate the automaton (including by defaultdict vivification), and that even_automaton is automaton_multiple(2). Not language equality of the derived automata.",
         ref="DESIGN.md §4 C10"),
     "C11": dict(
-        engine="S1 + S2 dirty=>refresh + S3 aux provider + P1 + C2 memo coherence + U1",
+        engine="C2 + GI1 + P1 + S1 + S1c + S2 + S3 + SH3 + U1",
         technique="def-use slot tracking, must-pass-through (typestate) on writers of proj_data, MRO exhaustiveness",
         text="Decides that every shape/dtype/combine/apply operation carries each data slot with its own ndims to its own sink, that every writer of the primary data refreshes the derived data on all exits, that every class with derived data provides the recomputation, and that the copying operations never write through to the original. Not numerical equality of recomputed data.",
         ref="DESIGN.md §4 C11"),
     "C12": dict(
-        engine="T1 + T2 + H1/H2 homogeneity & sign typing + U1",
+        engine="H1 + H2 + HD1 + OF1 + T1 + T1e + T2 + U1",
         technique="interprocedural value-kind flow to dtype probes; homogeneity typing of cross-object differences of raw representatives",
         text="Decides that Python scalars and nested lists supplied as 'like' reach a dtype probe that accepts them on NumPy>=2, and that no raw difference of two objects' homogeneous representatives is formed without sign/scale alignment. Not scale-invariance of arbitrary formulas.",
         ref="DESIGN.md §4 C12"),
     "C13": dict(
-        engine="T1 + RC row convention + G2 + ODD1 parity + U1/A1",
+        engine="G2 + HD1 + ODD1 + RC + T1 + T1e + U1",
         technique="value-kind flow, call-graph scans, argument check at Isometry(find_isometry(...), column_vectors=False)",
         text="Narrow: decides only that the constructions can execute on real input and that every frame completed by find_isometry is wrapped with the row convention. Not that targets are hit.",
         ref="DESIGN.md §4 C13"),
     "C14": dict(
-        engine="X1 sibling dispatch + X2 unit guard + AX1 + U1",
+        engine="AX1 + PT1 + U1 + X1 + X2 + X3",
         technique="AST sibling agreement between the circle_parameters implementations",
         text="Narrow: decides that Geodesic and Segment agree on the model->arc-ordering table and that all four implementations scale to degrees under the degrees flag only. Not the geometry of the circles.",
         ref="DESIGN.md §4 C14"),
     "C15": dict(
-        engine="R1 rejection guard + U1",
+        engine="EIG1 + R1 + REF1 + U1",
         technique="path enumeration: every success return is dominated by a conditional raise depending on the eigenvalues / dimension",
         text="Narrow: decides the 'a non-reflection is rejected' clause structurally. Not involutivity or fixed points.",
         ref="DESIGN.md §4 C15"),
     "C16": dict(
-        engine="C1 complex-preserving decision + R1c + I1c chart-slot agreement + BM1 + N1 + U1",
+        engine="BM1 + C1 + EIG1 + I1c + N1 + R1c + SH4 + U1",
         technique="type-flow on the operands of the chart-membership comparisons",
         text="Decides that the comparisons deciding chart membership never route their operand through a real-typed cast unless it is a modulus, and that set and get use one chart index. Not affine maps/intersections numerically.",
         ref="DESIGN.md §4 C16"),
     "C19": dict(
-        engine="DR1 guard pass-through + DR2 single transform + DR3 degree units + DR4 chart forwarding + U1",
+        engine="DR1 + DR2 + DR3 + DR4 + K4 + U1",
         technique="AST def-use from each draw_* object parameter through preprocess_object; unit agreement between circle_parameters(degrees) and matplotlib Arc/Path.arc",
         text="Decides that every draw method routes its object through the dimension guard before use, applies the drawing transform exactly once for the kinds in the statement, and feeds degree-valued matplotlib APIs from degree-valued circle parameters. Not that paths follow geodesics.",
         ref="DESIGN.md §4 C19"),
     "C20": dict(
-        engine="O1 use-after-in-place-consume + K1 mask agreement + K2 case-table agreement + U1",
+        engine="HD2 + K1 + K2 + K3 + O1 + PT1 + U1",
         technique="ownership analysis of utils.normalize's in-place argument; normalised-AST mask equality; sibling case tables",
         text="Decides that the disk centre is not reused after being normalised in place, that every masked store reads with the mask it writes with, and that elementwise and pairwise arms use the same case table. Not the stereographic/Moebius formulas.",
         ref="DESIGN.md §4 C20"),
